@@ -71,8 +71,8 @@ META = dict(
     level_text="All chains of <=3 (quick; all chains <=2, the 3rd call state-changing below state-changing chains) / <=4 "
     "(thorough; all chains <=3, the 4th call state-changing below state-changing chains) "
     "generative calls over a per-base alphabet of 12-33 calls with fixed small arguments, from 8 base statements, are "
-    "materialised as a tree of live objects. Each node's SQL string and parameters on sqlite, postgresql, mysql, mssql "
-    "and oracle are recorded when the node is created, compared between two consecutive compilations, compared with "
+    "materialised as a tree of live objects. Each node's SQL string and parameters on sqlite, postgresql, mysql, mssql, "
+    "oracle and oracle with enable_offset_fetch=False (ROWNUM wrapping) are recorded when the node is created, compared between two consecutive compilations, compared with "
     "the compilations of its copy.copy / _clone() / pickle round trip, and compared again after the complete tree has "
     "been built, compiled, copied and pickled. The receiver of each call and the subject of each compile() are "
     "fingerprinted (un-memoised cache key, extracted bind values, shallow vars()) before and after. Complete for the "
@@ -88,8 +88,9 @@ META = dict(
     assumptions=["single-threaded construction", "dialects instantiated without a DBAPI (default options)"],
     bounds=dict(
         quick="all chains of <= 2 calls plus, below chains of state-changing calls, every 3rd state-changing call, from "
-        "each of 8 bases; 5 dialects; copy/clone/pickle of every node",
-        thorough="all chains of <= 3 calls plus, below chains of state-changing calls, every 4th state-changing call; 5 dialects",
+        "each of 8 bases; 5 dialects + Oracle ROWNUM mode; copy/clone/pickle of every node",
+        thorough="all chains of <= 3 calls plus, below chains of state-changing calls, a 4th call from the first ten "
+        "state-changing calls; 5 dialects + Oracle ROWNUM mode",
     ),
 )
 SHARD_TIMEOUT = dict(quick=600, thorough=3000)
@@ -695,7 +696,7 @@ _TREES_WITH_A_REPORTED_MODIFICATION = set()
 
 _REPORTS = [0]
 _SEEN_KEYS = set()
-MAX_ANALYSED_PER_SHARD = 14
+MAX_ANALYSED_PER_SHARD = 80
 
 
 def report(rec, base, chain, op, problems, dialects, shard):
@@ -796,6 +797,7 @@ def explore(rec, base, first, depth, dialects, tier, shard):
         if n is not None and i == first:
             frontier.append(n)
     core_names = set(name for name, _, core_op in ops if core_op)
+    fourth = set([name for name, _, core_op in ops if core_op][:10])  # the 4th call: the first ten state-changing calls
     for lvl in range(2, depth + 1):
         nxt = []
         # the last level of a tier applies the state-changing ("core") half of the alphabet, below chains made of
@@ -806,6 +808,8 @@ def explore(rec, base, first, depth, dialects, tier, shard):
                 continue
             for name, fn, core_op in ops:
                 if last_extra and not core_op:
+                    continue
+                if lvl == 4 and name not in fourth:
                     continue
                 n = expand(node, name, fn)
                 if n is not None:
